@@ -17,6 +17,7 @@ tie:    harness/c04_shapes.cc, ONE templated harness instantiated for BD_Shape /
 """
 from . import wr_common as w
 from . import c03_trans
+from . import c03_box
 LEVEL = "proof"
 
 
@@ -29,6 +30,7 @@ def run(ctx):
     w.run_shapes(ctx, "c03", w.ALL_TYPES, n_hist=150 if quick else 2500, length=12 if quick else 25,
                  maxdim=3 if quick else 4)
     broken += c03_trans.run(ctx)           # stage 3: the sign-case transformers (proof + exact correspondence + K1 judge)
+    broken += c03_box.run(ctx)             # stage 4: the Box<ITV> transformers (proof + exact correspondence + sampled judge)
     for b in broken:
         ctx.violation("proof obligation broken: " + b, {"obligation": b}, found_input=False)
     ctx.assumptions += [
@@ -45,5 +47,7 @@ def replay(ctx, path):
     ctx.ensure_ppl()
     if c03_trans.is_replay(path):
         return c03_trans.replay(ctx, path)
+    if c03_box.is_replay(path):
+        return c03_box.replay(ctx, path)
     w.run_replay(ctx, "c03")
     return 1 if ctx.violations else 0
